@@ -71,7 +71,7 @@ func chainRoot(addr ssa.Value) (root ssa.Value, rootType *types.Named, immediate
 			n, st := structOf(x.X.Type())
 			if first && st != nil {
 				immediate = n
-				field = st.Field(x.Field).Name()
+				field = fieldNameOf(n, st, x.Field)
 				first = false
 			}
 			rootType = n
